@@ -160,6 +160,21 @@ MUTANTS = [
         if not self._implicit and not self._savepoints:
             self._state0 = self._current
 """)]},
+    # global-schema (role) DDL: the COMMIT unit must carry the block's final global schema,
+    # and a rollback to a savepoint must restore it with the rest of the snapshot
+    {'name': 'commit_unit_never_carries_global_schema',
+     'patches': [(CP, """        final_global_schema = cur_tx.get_global_schema_if_updated()""",
+                  """        final_global_schema = None""")]},
+    {'name': 'global_schema_update_dropped_in_block',
+     'patches': [(DS, """        self._current = self._current._replace(
+            local_user_schema=user_schema,
+            global_schema=global_schema,
+        )
+""", """        self._current = self._current._replace(
+            local_user_schema=user_schema,
+            global_schema=global_schema if self._implicit else self._current.global_schema,
+        )
+""")]},
 ]
 SPEC.mutants = MUTANTS
 SPEC.quick_mutants = ['commit_publishes_initial_state', 'savepoint_snapshots_initial_state',
